@@ -362,7 +362,7 @@ exact = KaniProp("nucleo-matcher", exact_uni_instances, "C10", functions=EXACT_F
 
 
 def fuzzy_exact_instances(tier):
-    return matcher_props.fuzzy_instances(tier) + matcher_props.exact_instances(tier) + matcher_props.uni_instances(tier)
+    return matcher_props.fuzzy_instances(tier) + matcher_props.exact_instances(tier) + matcher_props.uni_instances(tier) + matcher_props.dispatch_instances(tier)
 
 
 both = KaniProp("nucleo-matcher", fuzzy_exact_instances, "C10", functions=FUZZY_FUNCS + EXACT_FUNCS,
@@ -450,6 +450,12 @@ utf32 = KaniProp("nucleo-matcher", matcher_props.utf32_instances, "C17",
                  outside=["multi-code-point clusters (combining marks, emoji sequences, Hangul jamo, regional indicators): GraphemeCursor on symbolic non-ASCII text is beyond CBMC's reach here; not claimed",
                           "Display / Debug formatting (std formatting machinery)", "strings longer than the per-tier bound"])
 
+multi = KaniProp("nucleo", nucleo_props.multi_instances, "C15", shims=NUCLEO_SHIMS, gen_mod=nucleo_props,
+                 functions=["MultiPattern::{new, reparse, score, is_empty}"],
+                 assumptions=["nucleo_matcher::pattern::Pattern::score is replaced by a stub keyed by (column pattern, haystack column); the real one is the subject of the compose_* harnesses",
+                              "no native replay for these harnesses (the stub exists only under Kani): a failed assertion is reported as inconclusive"],
+                 outside=["more than 3 columns"])
+
 PROPS = {
     "C06": proto,
     "C07": proto,
@@ -457,7 +463,7 @@ PROPS = {
     "C13": proto,
     "C19": proto,
     "C17": utf32,
-    "C15": compose,
+    "C15": Multi([compose, multi]),
     "C20": proto,
     "C18": sort,
     "C08": boxcar,
